@@ -45,7 +45,19 @@ def skip_rule(crate, prop, rule="C02.R2"):
                         sw.append((blk, f_t[0] if f_t else None, term["otherwise"]))
             f, l = M.user_span(t["span"])
             n += 1
-            r.inst(fn=fold(body.path), source=kind + "::from_attrs", where="%s:%s" % (f, l), skip_tested=bool(sw))
+            # a helper may hand the flag (or the whole value) to its caller instead of branching itself
+            delegated = False
+            for blk in range(body.n):
+                for st in body.stmts(blk):
+                    if st["k"] == "assign" and st["dst"]["l"] == 0 and st["rv"]["k"] in ("use", "agg"):
+                        ops = [st["rv"]["op"]] if st["rv"]["k"] == "use" else st["rv"]["ops"]
+                        for o in ops:
+                            p = op_place(o)
+                            if p and p["l"] in vals:
+                                delegated = True
+            r.inst(fn=fold(body.path), source=kind + "::from_attrs", where="%s:%s" % (f, l), skip_tested=bool(sw), returned_to_caller=delegated)
+            if not sw and delegated:
+                continue
             if not sw:
                 r.fail(prop, "skip-untested %s <- %s::from_attrs" % (fold(body.path), kind), "the `skip` flag of this attribute value is never branched on: a skipped field/variant would still be emitted", f, l)
                 continue
